@@ -47,6 +47,10 @@ MUTANTS = [
     ("c04-conv-drops-control", "C04", ABS, "if msg.message_type != MessageType.INTERNAL:\n                message_to_add = msg.copy()", "if msg.message_type != MessageType.INTERNAL and msg.message_type != MessageType.CONTROL_CHANGE:\n                message_to_add = msg.copy()", {"CONV"}),
     ("c04-conv-cap-flag", "C04", REL, "                current_point_in_time += msg.time\n                cap_message_exists = False", "                current_point_in_time += msg.time\n                cap_message_exists = True", {"CONV"}),
     ("c04-conv-clock", "C04", ABS, "time=time - current_point_in_time))\n                current_point_in_time = time", "time=time - current_point_in_time))", {"CONV"}),
+    ("c04-overwrite-ctor-unsorted", "C04", SEQ, "        abs = AbsoluteSequence()\n        for msg in messages:\n            abs.add_message(msg)\n        self._abs = abs",
+     "        self._abs = AbsoluteSequence(messages=messages)", {"ABS-SORTED"}),
+    ("c04-overwrite-raw-append", "C04", SEQ, "        for msg in messages:\n            abs.add_message(msg)\n        self._abs = abs",
+     "        for msg in messages:\n            abs._messages.append(msg)\n        self._abs = abs", {"ABS-SORTED"}),
     ("c04-cutoff-sort-first", "C04", ABS, "                        message_pairing[1].time = message_pairing[0].time + reduced_length\n\n        self.normalise_absolute()", "                        message_pairing[1].time = message_pairing[0].time + reduced_length", {"ABS-SORTED"}),
     # ---- C05
     ("c05-floor-minus-one", "C05", ABS, "(message_original_time // step_size) * step_size for", "((message_original_time // step_size) - 1) * step_size for", {"NEAR"}),
